@@ -17,7 +17,7 @@ pub const PIN_FILES: &[(&str, Option<&[&str]>)] = &[
   ("src/lib.rs", Some(&["write_zeroes", "fill_zeroes", "zeroed"])),
   ("src/zeroable.rs", Some(&["trait Zeroable::zeroed"])),
   ("src/allocation.rs", Some(&[
-    "pod_collect_to_vec", "zeroed_rc", "zeroed_rc_slice", "zeroed_arc", "zeroed_arc_slice",
+    "zeroed_rc", "zeroed_rc_slice", "zeroed_arc", "zeroed_arc_slice",
     "box_bytes_of", "from_box_bytes", "try_from_box_bytes",
     "impl sealed::BoxBytesOf for str::box_bytes_of", "impl Deref for BoxBytes::deref", "impl DerefMut for BoxBytes::deref_mut",
     "impl BoxBytes::from_raw_parts", "impl BoxBytes::into_raw_parts", "impl BoxBytes::layout",
